@@ -156,6 +156,15 @@ func (c *Client) validateVirtualChannelSettlementProposal(
 		return errors.New("invalid balances")
 	}
 
+	// Assert that all other sub-allocations stay as they are.
+	before := parent.state().Clone()
+	if err := before.RemoveSubAlloc(subAlloc); err != nil {
+		return errors.WithMessage(err, "invalid allocation")
+	}
+	if !channel.SubAllocsEqual(before.Locked, prop.State.Locked) {
+		return errors.New("other sub-allocations changed")
+	}
+
 	return nil
 }
 
